@@ -584,6 +584,8 @@ def p_cons(rng, c, which=None, infield=False):
     if not infield:
         choices += ["shape", "uncompress", "cls"]
     which = which or rng.choice(choices)
+    if which == "shape" and c["cls"] == "dim":
+        return None        # the API refuses a dimension coordinate that is not 1-d
     if which.startswith("prop_"):
         return p_props(rng, c["pd"]["props"], which)
     if which in DATA_P or which in ("shape", "uncompress"):
@@ -1155,7 +1157,7 @@ def generate(chk):
         cr = gen_cr(rng, ck, dk)
         cr["coords"] = [ck[0]] + [k for k in cr["coords"] if k not in (ck[0], ck[1])][:1]
         cr["cdas"] = [["a", dk[0]]] + [t for t in cr["cdas"] if t[0] != "a" and t[1] != dk[1]][:1]
-        x["crs"] = [["coordinatereference0", cr]] + x["crs"][:1]
+        x["crs"] = [["coordinatereference5", cr]] + x["crs"][:1]
         y = copy.deepcopy(x)
         o = gen_opts(rng, loose_p=0.2)
         if rng.random() < 0.5:
